@@ -191,3 +191,30 @@ Fixpoint count_ev (e : ev) (l : list ev) : N :=
   match l with [] => 0 | x :: l' => (if ev_eqb e x then 1 else 0) + count_ev e l' end.
 Fixpoint count_key (k : bytes) (l : list bytes) : N :=
   match l with [] => 0 | x :: l' => (if beq k x then 1 else 0) + count_key k l' end.
+
+(* ---------- specification side for the NAT-type and country figures ----------
+   UpdateCountryStats looks at the NAT type and the country of a poll only when the address is NEW for its
+   (normalised) proxy type in the current period: what counts is the FIRST accepted poll of each (type, address). *)
+(* NAT type and country of an accepted poll of address a with normalised type u *)
+Definition poll_of (u : N) (a : bytes) (o : op) : option (N * bytes) :=
+  match o with
+  | ProxyPoll (Some (ad, c)) t n _ out =>
+      match out with
+      | Rejected => None
+      | _ => if (norm_type t =? u) && beq ad a then Some (n, c) else None
+      end
+  | _ => None
+  end.
+Fixpoint first_poll (u : N) (a : bytes) (ops : list op) : option (N * bytes) :=
+  match ops with
+  | [] => None
+  | o :: r => match poll_of u a o with Some x => Some x | None => first_poll u a r end
+  end.
+(* the first accepted poll of (u, a) resolved to country c *)
+Definition ccb (c : bytes) (u : N) (ops : list op) (a : bytes) : bool :=
+  match first_poll u a ops with Some (_, c') => beq c c' | None => false end.
+Definition all_types : list N := [0; 1; 2; 3; 4].
+Fixpoint sumN (l : list N) : N := match l with [] => 0 | x :: r => x + sumN r end.
+(* over the five type classes: addresses of the class (given as [sets u]) whose first poll resolved to c *)
+Definition ccsum (c : bytes) (ops : list op) (sets : N -> list bytes) : N :=
+  sumN (map (fun u => N.of_nat (List.length (filter (ccb c u ops) (sets u)))) all_types).
